@@ -18,7 +18,7 @@ type Scenario struct {
 	Bump bool // committee-preserving root-height bump at every live node before the round
 	E    int  // ELECTION_VOTE reaching the leader: 0 all; 1 all except those carrying a HighQc; 2 all except those from holders of the highest lock
 	P    int  // PROPOSE recipients: 0 all; 1 none
-	Q1   int  // PRECOMMIT recipients: 0 all; 1 leader only; 2 minimal quorum incl. leader; 3 none
+	Q1   int  // PRECOMMIT recipients: 0 all; 1 leader only; 2 minimal quorum incl. leader (the highest honest non-leader is left out); 3 none; 4 the other minimal quorum (the lowest honest non-leader is left out)
 	Q2   int  // COMMIT recipients: 0 all; 1 none; 2 leader only; 3+i node i only
 	V    int  // Byzantine replica: 0 votes; 1 withholds its votes
 	J    int  // Byzantine leader's PRECOMMIT justification: 0 the certificate it just aggregated; 1 a REPLAYED certificate: the first certificate of the first certified block (other round, possibly other results) under the current message header
@@ -67,6 +67,7 @@ type roundCtx struct {
 	highLock *lib.View
 	disabled bool // scenario not applicable (e.g. L>0 but the Byzantine node does not lead)
 	minQ     map[int]bool
+	minQAlt  map[int]bool
 	vetoSent bool
 	held     []*Envelope // late delivery: released after the next timer generation fired
 }
@@ -251,6 +252,8 @@ func (w *World) allow(rc *roundCtx, e *Envelope) bool {
 			return e.To == rc.leader
 		case 2:
 			return w.minQuorum(rc)[e.To]
+		case 4:
+			return w.minQuorumAlt(rc)[e.To]
 		case 3:
 			return false
 		}
@@ -354,6 +357,38 @@ func (w *World) minQuorum(rc *roundCtx) map[int]bool {
 		}
 	}
 	rc.minQ = q
+	return q
+}
+
+// minQuorumAlt is the other minimal quorum: the honest non-leaders are taken from the highest index down, so the node left
+// out is the lowest one (minQuorum leaves out the highest). Which honest node misses the PRECOMMIT decides who keeps an
+// older lock; with one fixed choice that depended on the placement.
+func (w *World) minQuorumAlt(rc *roundCtx) map[int]bool {
+	if rc.minQAlt != nil {
+		return rc.minQAlt
+	}
+	vs := w.ValSet()
+	q := map[int]bool{rc.leader: true}
+	power := w.Cfg.Powers[rc.leader]
+	order := []int{}
+	if w.Cfg.Byz >= 0 && w.Cfg.Byz != rc.leader {
+		order = append(order, w.Cfg.Byz)
+	}
+	for i := len(w.Nodes) - 1; i >= 0; i-- {
+		if i != rc.leader && i != w.Cfg.Byz {
+			order = append(order, i)
+		}
+	}
+	for _, i := range order {
+		if power >= vs.MinimumMaj23 {
+			break
+		}
+		if w.Live(i) {
+			q[i] = true
+			power += w.Cfg.Powers[i]
+		}
+	}
+	rc.minQAlt = q
 	return q
 }
 
